@@ -137,6 +137,7 @@ func hostTouching(o types.Object) (bool, string) {
 func c12r1(c *core.Ctx) {
 	p := c.P
 	pkgs := mediatedPackages(p)
+	helpers := hostHelpers(p, pkgs)
 	nuses := 0
 	for _, pk := range pkgs {
 		rel := core.RelPkg(pk.Types)
@@ -157,6 +158,10 @@ func c12r1(c *core.Ctx) {
 				if bad, why := hostTouching(o); bad {
 					viol++
 					c.Fail(rel+"."+declName(fd)+"|"+why, posOf(p, id), "mediated code references "+why+" directly instead of going through the OS taken from the context")
+				}
+				if f, ok := o.(*types.Func); ok && helpers[f] != "" {
+					viol++
+					c.Fail(rel+"."+declName(fd)+"|via:"+core.FuncName(f), posOf(p, id), "mediated code references "+core.FuncName(f)+", a package-level helper that goes straight to the host ("+helpers[f]+") instead of through the OS taken from the context")
 				}
 				return true
 			})
@@ -908,4 +913,46 @@ func c12r4(c *core.Ctx) {
 		return true
 	})
 	c.Check(gl == "", "os.GetOS|no-global", posOf(p, gfd), "GetOS consults only the context"+ifs(gl != "", ": uses package variable "+gl))
+}
+
+// hostHelpers: package-level functions (not methods: the OS implementations are
+// reached through the interface) of repository packages outside the mediated set
+// whose body references a host-touching standard-library object, directly or
+// through another such helper.  risor/os exports several (os.LookupUid,
+// os.Current, ...) with the same signatures as the OS interface's methods.
+func hostHelpers(p *core.Program, mediated []*packages.Package) map[*types.Func]string {
+	isMediated := map[*types.Package]bool{}
+	for _, pk := range mediated {
+		isMediated[pk.Types] = true
+	}
+	out := map[*types.Func]string{}
+	for changed := true; changed; {
+		changed = false
+		for _, pk := range p.Pkgs {
+			if isMediated[pk.Types] {
+				continue
+			}
+			funcBodies(pk, func(fn *types.Func, fd *ast.FuncDecl) {
+				if fd.Recv != nil || out[fn] != "" {
+					return
+				}
+				ast.Inspect(fd.Body, func(n ast.Node) bool {
+					id, ok := n.(*ast.Ident)
+					if !ok || out[fn] != "" {
+						return true
+					}
+					o := pk.TypesInfo.Uses[id]
+					if bad, why := hostTouching(o); bad {
+						out[fn] = why
+						changed = true
+					} else if f, ok := o.(*types.Func); ok && out[f] != "" {
+						out[fn] = out[f]
+						changed = true
+					}
+					return true
+				})
+			})
+		}
+	}
+	return out
 }
